@@ -133,11 +133,9 @@ namespace rkcommon {
     template <typename T>
     inline Optional<T>::Optional(Optional<T> &&other) : Optional()
     {
-      if (other.has_value()) {
-        reset();
-        value()  = std::move(other.value());
-        hasValue = true;
-      }
+      // construct (not assign: there is no object in the storage yet)
+      if (other.has_value())
+        emplace(std::move(other.value()));
     }
 
     template <typename T>
@@ -150,11 +148,9 @@ namespace rkcommon {
                     " convertible to the type parameter of the destination"
                     " Optional<>.");
 
-      if (other.has_value()) {
-        reset();
-        value()  = std::move(other.value());
-        hasValue = true;
-      }
+      // construct (not assign: there is no object in the storage yet)
+      if (other.has_value())
+        emplace(std::move(other.value()));
     }
 
 #if 0  // NOTE(jda) - see comment in declaration...
